@@ -10,6 +10,7 @@ Usage:
 
 import argparse
 import os
+import re
 import shutil
 import sys
 
@@ -151,15 +152,20 @@ def _migrate_csv_to_rules(csv_file: str, config_dir: str, backup: bool = True) -
         if os.path.exists(settings_path):
             with open(settings_path, 'r', encoding='utf-8', newline='') as f:
                 settings_content = f.read()
-            if 'merchants_file:' not in settings_content:
+            # Only a real top-level key counts: a commented-out "# merchants_file: ..." hint must not
+            # stop the reference from being added (the CSV is retired in step 3 either way)
+            if not re.search(r'(?m)^merchants_file\s*:', settings_content):
                 tmp_settings = settings_path + '.tmp'
                 with open(tmp_settings, 'w', encoding='utf-8', newline='') as f:
                     f.write(settings_content)
                     f.write('\n# Merchant rules file (migrated from CSV)\n')
-                    f.write('merchants_file: config/merchants.rules\n')
+                    # Paths in settings.yaml are relative to the budget root; the config directory
+                    # is not necessarily called "config"
+                    rules_ref = f"{os.path.basename(os.path.abspath(config_dir))}/merchants.rules"
+                    f.write(f'merchants_file: {rules_ref}\n')
                 os.replace(tmp_settings, settings_path)
                 print(f"  {C.GREEN}✓{C.RESET} Updated: config/settings.yaml")
-                print(f"      Added merchants_file: config/merchants.rules")
+                print(f"      Added merchants_file: {rules_ref}")
 
         # 3. Backup old file
         if backup and os.path.exists(csv_file):
